@@ -178,6 +178,27 @@ def h_length(ctx, high):
     ctx.vc("L <= 2 pi a (circumscribed circle)", L <= 2 * pi * a)
 
 
+@P.harness("length_orbit/continuous-at-the-switch", axioms=("sqrt",), functions=[COORD + "length_orbit"], crosscheck=0, timeout=120)
+def h_length_switch(ctx):
+    """the two approximations meet at the switch: for a = 1 the value just below e = 0.95 (0.95 - 1e-12, first formula) and the
+    value at 0.95 (second formula) differ by less than 1e-3 (the length is homogeneous of degree 1 in a; the circle bounds of
+    the harness above hold on both sides)"""
+    if ctx.native:
+        from pymeeus import Coordinates as C
+        ctx.vc("jump at e = 0.95 below 1e-3 a", abs(C.length_orbit(0.95 - 1e-12, 1.0) - C.length_orbit(0.95, 1.0)) < 1e-3)
+        return
+    lo = Num.of(Fraction(95, 100) - Fraction(1, 10 ** 12)).as_float()
+    hi = Num.of(Fraction(95, 100)).as_float()
+    L1 = Num.of(ctx.call(COORD + "length_orbit", lo, Num.of(1.0)))
+    L2 = Num.of(ctx.call(COORD + "length_orbit", hi, Num.of(1.0)))
+    from pyvc import interval
+    import z3
+    lo_, hi_ = interval.bounds(z3.simplify((L1 - L2).real()), {})
+    ctx.vc("interval back end (40-digit square roots, pi to 15 digits): L(0.95 - 1e-12) - L(0.95) in [%.3e, %.3e] for a = 1"
+           % (float(lo_), float(hi_)), True)
+    ctx.vc("|L(0.95 - 1e-12) - L(0.95)| < 1e-3 for a = 1", lo_ > -Fraction(1, 1000) and hi_ < Fraction(1, 1000))
+
+
 # ---- bounded
 @P.bounded_check("float/kepler-and-nodes", grid="e in {0, 1e-9, .1, .3, .5, .7, .9, .97, .99, .999, .999999} + seeded; M in "
                  "[-1e4, 1e4] deg incl. multiples of 180 and +-1e-9 around them; a in 0.3..100; omega 0..360")
